@@ -420,7 +420,7 @@ def stream_start_consumes_nothing_of_its_own(rep, F, rule="stream-start-consumes
               % (", ".join(sorted({short(ck) for _, _, ck in cons})), ", ".join(short(x) if "::" in x else x for x in own)), site=f.span)
 
 
-def block_scalar_stops_at_marker(rep, F):
+def block_scalar_stops_at_marker(rep, F, rule="block-scalar-stops-at-marker"):
     """A document marker line (`...` as well as `---`) ends a top-level block scalar (otherwise `A ... B` swallows B into A's last
     scalar, and a following `--- B` becomes scalar text): in scan_block_scalar every path from the function entry to the call that
     reads a content line passes a test for that marker, or leaves the test's controlling condition (content indentation 0) on its
@@ -431,7 +431,7 @@ def block_scalar_stops_at_marker(rep, F):
                                 ("---", ("next_is_document_start", "next_is_document_indicator"), "scan_block_scalar:document-start")):
         de = [bb for bb, t, ck, fr in f.calls() if fr and fr.get("trait") == INPUT and fr["name"] in names]
         if not cl or not de:
-            rep.check(False, "block-scalar-stops-at-marker", inst, "scan_block_scalar does not test for the document marker `%s` before reading a content line "
+            rep.check(False, rule, inst, "scan_block_scalar does not test for the document marker `%s` before reading a content line "
                       "(content-line calls: %d, marker tests: %d): the marker line and everything after it become scalar text" % (marker, len(cl), len(de)), site=f.span)
             continue
         D = f.dominators()
@@ -465,7 +465,7 @@ def block_scalar_stops_at_marker(rep, F):
         while x is not None:
             pth.append(x)
             x = path[x]
-        rep.check(hit is None, "block-scalar-stops-at-marker", inst, "a content line of a block scalar at indentation 0 can be read without the line having been "
+        rep.check(hit is None, rule, inst, "a content line of a block scalar at indentation 0 can be read without the line having been "
                   "tested for a document marker (`%s`): the marker and everything after it become scalar text" % marker, site=f.span, detail={"path": pth[::-1]})
 
 
